@@ -638,6 +638,14 @@ def _quarantine_apply(out, hit, reasons):
         if '@QUARANTINED' in out[x2[0]:x2[2]]:
             return None
         out = out[:x2[1]] + '{ unimplemented!() } // @QUARANTINED' + out[x2[2]:]
+        # an inherent method / free function is also RENAMED: whoever calls it then fails to compile and is quarantined in turn (found by the
+        # compiler, so exactly the callers and nobody else); methods of trait impls keep their name (the trait fixes it)
+        hdr = _impl_header_of(out, x2[0])
+        sig = out[x2[0]:x2[1]]
+        nm = FN_RE.search(sig)
+        if nm and not key.startswith('helper:') and (hdr is None or ' for ' not in hdr):
+            sig = sig[:nm.start(1)] + nm.group(1) + '__unverified' + sig[nm.end(1):]
+            out = out[:x2[0]] + sig + out[x2[1]:]
         out = out[:x2[0]] + '#[verifier::external_body] ' + out[x2[0]:]
     return out, reasons
 
@@ -694,7 +702,7 @@ def verus_unit_quarantining(unit, ctx, workdir, text, tier):
     original = text
     quarantined = {}
     r = None
-    for _round in range(6):
+    for _round in range(12):
         try:
             r = verus_unit(unit, workdir, text, tier)
             break
@@ -705,9 +713,13 @@ def verus_unit_quarantining(unit, ctx, workdir, text, tier):
                 if not q or not q[1]:
                     raise
             text = q[0]
-            quarantined.update(q[1])
+            for k, why in q[1].items():
+                mm = re.search(r'no (?:method|function or associated item) named `(\w+)`', why or '')
+                if mm and ('fn %s__unverified' % mm.group(1)) in text:
+                    why = 'relies on the contract of `%s`, which could not be verified on this tree' % mm.group(1)
+                quarantined[k] = why
     if r is None:
-        raise Undecided('unit %s: more than 6 rounds of quarantine' % unit.NAME)
+        raise Undecided('unit %s: more than 12 rounds of quarantine' % unit.NAME)
     if not quarantined:
         return r, text
     clause, fnobl = parse_markers(original)
@@ -722,6 +734,7 @@ def verus_unit_quarantining(unit, ctx, workdir, text, tier):
     # callers (transitively) of quarantined functions rely on a contract nobody verified
     # (a quarantined auto-included helper has no contract to rely on: its callers are verified against an arbitrary result)
     names = {k: _called_name(e) for e in ctx.extracted for k in [e.key] if k in quarantined and not k.startswith('helper:')}
+    names = {k: nm for k, nm in names.items() if nm and ('fn %s__unverified' % nm) not in text}      # renamed ones: their callers were found by the compiler
     dependent = {}
     changed = True
     bodies = {e.key: (getattr(e, 'body_final', None) or '') for e in ctx.extracted if getattr(e, 'sig_final', None)}
@@ -889,6 +902,7 @@ def find_missing_callees(unit, ctx, text, workdir, repo):
             f.write(text)
         r = run_verus(path, extra=['--no-verify'])
         msgs = [d.get('message', '') for d in r['diags'] if d.get('level') == 'error']
+        err_lines = [sp.get('line_start') for d in r['diags'] if d.get('level') == 'error' for sp in d.get('spans', []) if sp.get('is_primary')]
     else:
         crate = os.path.join(workdir, 'resolve')
         os.makedirs(os.path.join(crate, 'src'), exist_ok=True)
@@ -899,12 +913,20 @@ def find_missing_callees(unit, ctx, text, workdir, repo):
         env = dict(os.environ, CARGO_NET_OFFLINE='true', CARGO_TARGET_DIR=os.path.join(workdir, 'resolve-target'))
         p = subprocess.run(['cargo', 'check', '--offline', '--message-format=short', '-q'], cwd=crate, capture_output=True, text=True, env=env)
         msgs = [l for l in p.stderr.split('\n') if 'error' in l]
+        err_lines = [int(mm.group(1)) for l in msgs for mm in [re.match(r'src/lib\.rs:(\d+):', l.strip())] if mm]
     wanted = []
     for m in msgs:
         for rx in MISSING_RES:
             mm = rx.search(m)
             if mm:
                 wanted.append((mm.group(1), mm.group(2) if mm.lastindex and mm.lastindex > 1 else None))
+    # a method the edit introduced can be shadowed by a std method of the same name (`x.take(..)` -> "is not an iterator"): look at the
+    # method calls on the lines the compiler complains about and ask for those the source defines but the rendered text does not
+    tlines = text.split('\n')
+    for ln in set(l for l in err_lines if l and 0 < l <= len(tlines)):
+        for mm in re.finditer(r'\.([a-z_][A-Za-z0-9_]*)\s*\(', tlines[ln - 1]):
+            if not re.search(r'\bfn\s+%s\s*[<(]' % re.escape(mm.group(1)), text) and (mm.group(1), '*') not in wanted:
+                wanted.append((mm.group(1), '*'))
     if not wanted:
         return []
     files = []
@@ -924,7 +946,7 @@ def find_missing_callees(unit, ctx, text, workdir, repo):
                     hit = (rel, None, name, it.kw)
                 elif it.kw == 'impl' and it.body_open is not None:
                     hdr = re.sub(r'\s+', ' ', it.header).strip()[len('impl'):].strip()
-                    if ty is not None and not re.search(r'\b%s\b' % re.escape(ty), hdr):
+                    if ty is not None and ty != '*' and not re.search(r'\b%s\b' % re.escape(ty), hdr):
                         continue
                     if ' for ' in hdr and ty is None:
                         continue
